@@ -736,3 +736,122 @@ let sh_cdiv a b =
 let sh_cmod a b =
   let r = Z.modulo a b in
   if (&&) (Z.ltb (Z.mul a b) Z0) (negb (Z.eqb r Z0)) then Z.sub r b else r
+
+type divisor =
+| DRun
+| DNum of z
+| DOpaque
+
+(** val has_constant_result : divisor -> bool **)
+
+let has_constant_result = function
+| DRun -> false
+| _ -> true
+
+type variant = { zc : bool; oq : bool }
+
+(** val may_equal : variant -> divisor -> z -> bool **)
+
+let may_equal v d x =
+  match d with
+  | DRun -> true
+  | DNum c -> Z.eqb c x
+  | DOpaque -> v.oq
+
+type dcfg = { cdir : bool; cforced : bool }
+
+(** val zerodivision_check : variant -> dcfg -> divisor -> bool **)
+
+let zerodivision_check v c d =
+  (&&) ((&&) (negb c.cforced) (negb c.cdir))
+    (match d with
+     | DNum k -> (&&) v.zc (Z.eqb k Z0)
+     | _ -> may_equal v d Z0)
+
+(** val min_division_check :
+    variant -> dcfg -> bool -> bool -> divisor -> bool **)
+
+let min_division_check v c is_mod s d =
+  (&&) ((&&) ((&&) ((&&) (negb c.cforced) (negb c.cdir)) (negb is_mod)) s)
+    (may_equal v d (Zneg XH))
+
+(** val c_operator : dcfg -> bool -> bool **)
+
+let c_operator c s =
+  (||) ((||) c.cforced c.cdir) (negb s)
+
+(** val decisions :
+    variant -> dcfg -> bool -> bool -> divisor ->
+    ((bool * bool) * bool) * bool **)
+
+let decisions v c is_mod s d =
+  ((((zerodivision_check v c d), (min_division_check v c is_mod s d)),
+    (c_operator c s)), (has_constant_result d))
+
+(** val div_stmt :
+    variant -> dcfg -> z -> bool -> divisor -> z -> z -> outcome **)
+
+let div_stmt v c w s d a b =
+  if (&&) (zerodivision_check v c d) (Z.eqb b Z0)
+  then ZeroDivisionError
+  else if (&&) ((&&) (min_division_check v c false s d) (Z.eqb b (Zneg XH)))
+            (Z.eqb a (min_int w s))
+       then OverflowError
+       else if div_ub w s a b
+            then UB
+            else if c_operator c s
+                 then Value (cdiv_c w s a b)
+                 else Value (div_int w s (has_constant_result d) a b)
+
+(** val mod_stmt :
+    variant -> dcfg -> z -> bool -> divisor -> z -> z -> outcome **)
+
+let mod_stmt v c w s d a b =
+  if (&&) (zerodivision_check v c d) (Z.eqb b Z0)
+  then ZeroDivisionError
+  else if c_operator c s
+       then if div_ub w s a b then UB else Value (cmod_c w s a b)
+       else if Z.eqb b Z0
+            then UB
+            else Value (mod_int w s (has_constant_result d) a b)
+
+(** val divmod_q : bool -> z -> bool -> z -> z -> outcome **)
+
+let divmod_q guard w s a b =
+  if Z.eqb b Z0
+  then ZeroDivisionError
+  else if Z.eqb a Z0
+       then Value Z0
+       else if (&&) ((&&) ((&&) guard s) (Z.eqb b (Zneg XH)))
+                 (Z.eqb a (min_int w s))
+            then OverflowError
+            else if div_ub w s a b
+                 then UB
+                 else if xorb (Z.ltb a Z0) (Z.ltb b Z0)
+                      then let q = wrap w s (Z.quot a b) in
+                           let r = wrap w s (Z.sub a (wrap w s (Z.mul q b)))
+                           in
+                           Value (wrap w s (Z.sub q (adapt_python true r b)))
+                      else Value (wrap w s (Z.quot a b))
+
+(** val divmod_r : bool -> z -> bool -> z -> z -> outcome **)
+
+let divmod_r guard w s a b =
+  if Z.eqb b Z0
+  then ZeroDivisionError
+  else if Z.eqb a Z0
+       then Value Z0
+       else if (&&) ((&&) ((&&) guard s) (Z.eqb b (Zneg XH)))
+                 (Z.eqb a (min_int w s))
+            then OverflowError
+            else if div_ub w s a b
+                 then UB
+                 else if xorb (Z.ltb a Z0) (Z.ltb b Z0)
+                      then let q = wrap w s (Z.quot a b) in
+                           let r = wrap w s (Z.sub a (wrap w s (Z.mul q b)))
+                           in
+                           Value
+                           (wrap w s
+                             (Z.add r
+                               (wrap w s (Z.mul (adapt_python true r b) b))))
+                      else Value (wrap w s (Z.rem a b))
